@@ -101,6 +101,9 @@ def run(ctx):
         except ImportError:
             ctx.count("java_leg_unavailable")
     ctx.cov["traces_validated_against_impl"] = len(meta) + len(nc_bytes)
+    import codec_cases as _cc
+    for _k, _v in _cc.FORMS.items():
+        ctx.count("encode_value_form:" + _k, _v)
     ctx.cov["rule"] = ("same generator as C07; every case compared byte for byte with two independent encoders (Python oracle from "
                        "AuxData.md, Coq model); non-trivial = container or string/float/UUID/Offset; distinct = (type, canonical value)")
     for (tn, vs, enc) in meta[300:303]:
